@@ -176,13 +176,14 @@ def run(ctx):
         if corr_fail_lines:
             ctx.broken.append({"kind": "correspondence", "what": "model and implementation disagree (cryptography / codec observations)",
                                "first": corr_fail_lines[0][:1500], "count": len(corr_fail_lines)})
-        seen_keys = set()
+        # one violation per class of failure; the shortest failing case of the class stands for it
+        by_key = {}
         for f in mon_fail_lines:
+            ks = json.dumps(classify(f), sort_keys=True)
+            if ks not in by_key or len(f) < len(by_key[ks]):
+                by_key[ks] = f
+        for f in sorted(by_key.values(), key=len):
             key = classify(f)
-            ks = json.dumps(key, sort_keys=True)
-            if ks in seen_keys:
-                continue
-            seen_keys.add(ks)
             case = f.split(" case=", 1)[1] if " case=" in f else f
             detail = f.split(" case=")[0]
             ctx.add_violation("C17 monitor false on the implementation: " + detail[:300],
